@@ -34,6 +34,42 @@ def run(res, tier, seed, replay):
         erecs, eh = ss.run_streams(estreams, seed + 79, dump=True)
         for h in eh:
             res.violation(f"hang-{h}", f"case {h} did not finish within the watchdog time (gated solve_cases)", {"hang": h})
+    # a provider whose sort_candidates looks up the dependencies of the candidates through the SolverCache (public API):
+    # its lookups overlap with the solver's own requests under asynchronous completion
+    if replay:
+        import json as _json
+        xa = _json.load(open(replay)).get("replay", {}).get("extra_args")
+        drecs = ss.run_replay(replay, profiles=("debug",), modes=("gated:random", "gated:lifo", "gated:fifo", "yield"),
+                              render=False, extra_args=xa) if xa else []
+    else:
+        drecs, dh = ss.run_streams([("small", 255, "gated:random", "debug", 300 * k), ("conflict", 255, "gated:lifo", "debug", 200 * k),
+                                    ("dense", 255, "yield", "debug", 120 * k), ("fanout", 88, "gated:random", "debug", 60 * k)],
+                                   seed + 97, extra_args=["--sort-deps"])
+        for h in dh:
+            res.violation(f"hang-{h}", f"case {h} did not finish within the watchdog time (sort_candidates using the cache)", {"hang": h})
+    ss.oracle_sat(drecs)
+    dref = ss.oracle_ref(drecs)
+    for r in drecs:
+        key = ss.case_key(r["case"])
+        kd = ss.outcome_kind(r["obs"]["outcome"])
+        calls = r["obs"]["calls"]
+        for tag, what in (("c", "get_candidates"), ("d", "get_dependencies")):
+            ids = [c[tag] for c in calls if isinstance(c, dict) and tag in c]
+            res.count([key, r["stream"], "sortdeps", tag], len(ids) >= 3)
+            dups = sorted({x for x in ids if ids.count(x) > 1})
+            if dups:
+                res.violation(key, f"{what} was requested more than once for {dups} when sort_candidates looks up dependencies through "
+                              f"the SolverCache ({r['stream']})", dict(ss.replay_obj(r), extra_args=["--sort-deps"]))
+        if kd in ("panic", "deadlock", "hang"):
+            res.violation(key, f"solve ended in {kd} when sort_candidates looks up dependencies through the SolverCache ({r['stream']})",
+                          dict(ss.replay_obj(r), extra_args=["--sort-deps"]))
+        want = dref[r["key"]]["solvable"]
+        if (kd == "unsat" and want) or (kd == "sat" and want is False):
+            res.violation(key, f"verdict {kd} but the reference says solvable={want} ({r['stream']}, sort_candidates using the cache)",
+                          dict(ss.replay_obj(r), extra_args=["--sort-deps"]))
+        if kd == "sat" and not r["valid"]:
+            res.violation(key, f"invalid solution {r['obs']['outcome']['sat']} ({r['stream']}, sort_candidates using the cache)",
+                          dict(ss.replay_obj(r), extra_args=["--sort-deps"]))
     enctie.annotate(erecs)
     tc.annotate(erecs)
     for r in erecs:
@@ -88,7 +124,7 @@ def run(res, tier, seed, replay):
     res.rule = ("every case is solved synchronously and under completion orders chosen by the schedule-controlled executor: FIFO, "
                 "LIFO, 3 random, and a bounded depth-first enumeration of the alternatives at every choice point; non-trivial = "
                 "case with >= 3 distinct schedules")
-    res.extra.update({"schedules_run": nsched, "max_simultaneously_pending": maxpend, "hangs": len(hangs)}, **enctie.stats(erecs))
+    res.extra.update({"schedules_run": nsched, "max_simultaneously_pending": maxpend, "hangs": len(hangs), "runs_with_sort_using_the_cache": len(drecs)}, **enctie.stats(erecs))
     return res.finish(CHECKER, vlib.TRUSTED_BASE,
                       ["single-threaded executor; provider futures for get_candidates / get_dependencies are the schedule points "
                        "(filter/sort complete immediately)", "solutions may legitimately differ between schedules; verdict and validity are compared"])
